@@ -51,6 +51,11 @@ fn cmd_sim(args: &[String]) -> i32 {
         }
     };
     let mut scenarios = scenarios;
+    if args.iter().any(|a| a == "--log-wire") {
+        for sc in &mut scenarios {
+            sc.log_wire = true;
+        }
+    }
     if let Some(mode) = arg(args, "--snap") {
         for sc in &mut scenarios {
             sc.snap = mode.to_string();
